@@ -13,8 +13,8 @@
 import Driver.Proto
 import FcModel.Spec.C13
 import FcModel.Csv
-namespace Fc.Drv
-open Fc.W
+namespace Fc.Drv.C13x
+open Fc.W Fc.Drv
 
 def hexDigit (n : Nat) : Char := if n < 10 then Char.ofNat (48 + n) else Char.ofNat (87 + n)
 
@@ -118,6 +118,11 @@ def opC13Dec : P String := do
   let t ← tok
   let cs := if t == "-" then [] else t.toList.map Char.toNat
   pure s!"dec={match b64dec cs with | some d => hexOfBytes d | none => "none"}"
+
+end Fc.Drv.C13x
+
+namespace Fc.Drv
+open Fc.Drv.C13x
 
 def handleC13 (op : String) : Option (P String) :=
   match op with
